@@ -1,6 +1,114 @@
 package props
 
-import "verif/sa/core"
+import (
+	"encoding/json"
+	"os"
+	"os/exec"
+	"path/filepath"
+	"regexp"
+	"sort"
+	"strings"
+	"sync"
 
-// Sensitivity is filled in by sens_run.go (overlay mutants); see DESIGN.md §7.
-func Sensitivity(p *core.Property, seed int64) map[string]interface{} { return nil }
+	"verif/sa/core"
+)
+
+// Sensitivity (thorough tier only; reported in evidence, never part of the
+// verdict): every seeded change under /verif/seeded that targets this property
+// — real edits that were confirmed to compile, pass the existing tests and
+// break the property — is applied to the CURRENT source in memory
+// (packages overlay, nothing is written) and the property's quick rule set is
+// decided on the result in a child process.  The report says which rule
+// instance names the change, and lists the seeds no rule of this property sees.
+func Sensitivity(p *core.Property, seed int64) map[string]interface{} {
+	dirs, _ := filepath.Glob("/verif/seeded/C*")
+	type item struct{ id, patch, summary string }
+	var items []item
+	for _, d := range dirs {
+		b, err := os.ReadFile(filepath.Join(d, "meta.json"))
+		if err != nil {
+			continue
+		}
+		var meta struct {
+			Property string `json:"property"`
+			Summary  string `json:"summary"`
+		}
+		if json.Unmarshal(b, &meta) != nil || meta.Property != p.ID {
+			continue
+		}
+		s := meta.Summary
+		if len(s) > 160 {
+			s = s[:160]
+		}
+		items = append(items, item{filepath.Base(d), filepath.Join(d, "patch.diff"), s})
+	}
+	sort.Slice(items, func(i, j int) bool { return items[i].id < items[j].id })
+	if len(items) == 0 {
+		return map[string]interface{}{"seeded_changes_tried": 0, "note": "no seeded change targets this property"}
+	}
+	self, err := os.Executable()
+	if err != nil {
+		return map[string]interface{}{"error": err.Error()}
+	}
+	ruleRe := regexp.MustCompile(`rule (R[0-9]+[a-z]?), instance ([^:]+(?::[^:]+)?)`)
+	type outcome struct {
+		ID       string   `json:"seed"`
+		Detected bool     `json:"detected"`
+		Rules    []string `json:"rules,omitempty"`
+		First    string   `json:"first_report,omitempty"`
+		Note     string   `json:"note,omitempty"`
+		Summary  string   `json:"change"`
+	}
+	outs := make([]outcome, len(items))
+	var wg sync.WaitGroup
+	sem := make(chan struct{}, 4)
+	for i, it := range items {
+		wg.Add(1)
+		go func(i int, it item) {
+			defer wg.Done()
+			sem <- struct{}{}
+			defer func() { <-sem }()
+			ev, _ := os.MkdirTemp("", "verifsa-sens-")
+			defer os.RemoveAll(ev)
+			cmd := exec.Command(self, "check", "-p", p.ID, "-tier", "quick", "-seedpatch", it.patch, "-evidence", ev)
+			b, _ := cmd.CombinedOutput()
+			o := outcome{ID: it.id, Summary: it.summary}
+			text := string(b)
+			switch {
+			case strings.Contains(text, "SEED-NOT-APPLICABLE"):
+				o.Note = "the recorded diff no longer applies to the current source"
+			case strings.Contains(text, "VIOLATION"):
+				o.Detected = true
+				seen := map[string]bool{}
+				for _, m := range ruleRe.FindAllStringSubmatch(text, -1) {
+					if !seen[m[1]] {
+						seen[m[1]] = true
+						o.Rules = append(o.Rules, m[1])
+					}
+					if o.First == "" {
+						o.First = m[1] + " @ " + strings.TrimSpace(m[2])
+					}
+				}
+				sort.Strings(o.Rules)
+			}
+			outs[i] = o
+		}(i, it)
+	}
+	wg.Wait()
+	det := 0
+	var missed []string
+	for _, o := range outs {
+		if o.Detected {
+			det++
+		} else {
+			missed = append(missed, o.ID)
+		}
+	}
+	return map[string]interface{}{
+		"what":                 "seeded property-breaking changes (/verif/seeded) applied in memory to the current source; the property's rule set decided on each",
+		"seeded_changes_tried": len(outs),
+		"detected":             det,
+		"not_detected":         missed,
+		"outcomes":             outs,
+	}
+}
